@@ -142,7 +142,7 @@ def run(ctx: Ctx, rep: Report) -> None:
                 if isinstance(tgt, ast.Name):
                     falsy_names.add(tgt.id)
         cfg = ctx.cfg(fn)
-        outs = simulate(cfg, auth_env(ctx, fn, creds, [call], falsy_names))
+        outs = simulate(cfg, auth_env(ctx, fn, creds, [call], falsy_names), expand=defs.expand)
         accepting = [o for o in outs if o.kind != "raise"]
         ok = bool(outs) and not accepting
         wit = [repr(n) for n in accepting[0].trail] if accepting else None
@@ -211,7 +211,7 @@ def run(ctx: Ctx, rep: Report) -> None:
         return None
 
     found = [1 for n in own_nodes(proc.node) if isinstance(n, ast.Compare) and user_env(n) is not None]
-    outs = simulate(cfg, auth_env(ctx, proc, creds, [], set(), extra=user_env))
+    outs = simulate(cfg, auth_env(ctx, proc, creds, [], set(), extra=user_env), expand=defs.expand)
     ok = bool(found) and bool(outs) and all(o.kind == "raise" for o in outs)
     rep.check(ok, "C09-R4", proc.site(), "a message whose user name differs from the credentials' raises on every path", f"user-name comparisons found: {len(found)}; outcomes: {outs}", key=f"{proc.key}|foreign-user-accepted")
 
@@ -259,6 +259,7 @@ def check_digest_args(ctx: Ctx, rep: Report, fn: FuncInfo, call: ast.Call) -> No
     site = fn.site(call)
     creds = cred_params(ctx, fn)
     key = bound.get("auth_key")
+    key = defs.expand(key) if key is not None else None
     rep.check(key is not None and norm(key) in [f"{c}.auth.key" for c in creds], "C09-R3", site, "auth key argument is the credentials' authentication key", f"{norm(key) if key is not None else None}", key=f"{fn.key}|auth-key-arg")
     data = bound.get("data")
     data_exp = defs.expand(data) if data is not None else None
@@ -399,5 +400,6 @@ def check_compare(ctx: Ctx, rep: Report, fn: FuncInfo) -> None:
             isinstance(v, ast.Call) and isinstance(v.func, ast.Name) and v.func.id == digest_fn.params[0] and [norm(a) for a in v.args] == ["auth_key", "engine_id"]
             for v in ddefs.all_values("auth_key")
         )
-        okh = kexp == "auth_key" and localised and norm(b.get("msg", ast.Constant(None))) == "encoded_message" and norm(b.get("digestmod", ast.Constant(None))) == digest_fn.params[1]
+        key_ok = (kexp == "auth_key" and localised) or kexp == f"{digest_fn.params[0]}(auth_key, engine_id)"
+        okh = key_ok and norm(b.get("msg", ast.Constant(None))) == "encoded_message" and norm(b.get("digestmod", ast.Constant(None))) == digest_fn.params[1]
     rep.check(okh, "C09-R3", digest_fn.site(), "HMAC over the message bytes, keyed with hasher(auth_key, engine_id) (the localised key), hash selected by the plug-in", key=f"{digest_fn.key}|hmac-args")
